@@ -5,6 +5,7 @@ import ast
 import re
 
 from vk import astx, da, elect, facts
+from vk.report import shape_rule
 from vk.algebra import Normalizer, bool_key, simplify, atoms_of, spec_guard, equivalent, NotClosedForm, literals
 from vk.loader import AnalysisError
 from vk.paths import PathCounter, INF
@@ -353,6 +354,7 @@ def r4_raise_census(ctx):
 
 
 # --------------------------------------------------------------------------------------------- R5
+@shape_rule
 def r5_boundary_tie(ctx):
     prog = ctx.prog
     f = prog.find_func("elect_cands_from_set_ranking")
@@ -453,6 +455,7 @@ def _singleton_pick_base(prog, f, x):
     return x
 
 
+@shape_rule
 def r6_bookkeeping(ctx):
     prog = ctx.prog
     N_sites = 0
@@ -517,6 +520,9 @@ def r6_bookkeeping(ctx):
         inits = [n for n in astx.walk_own(g.node) if isinstance(n, ast.DictComp) and len(n.generators) == 1
                  and astx.u(n.generators[0].iter).endswith(".candidates") and not n.generators[0].ifs
                  and astx.is_name(n.key, getattr(n.generators[0].target, "id", None))]
+        if not inits:
+            # dict.fromkeys(<profile>.candidates, zero) is the same table
+            inits = [n for n in astx.walk_own(g.node) if isinstance(n, ast.Call) and astx.u(n.func) == "dict.fromkeys" and len(n.args) == 2 and astx.u(n.args[0]).endswith(".candidates")]
         ctx.check(bool(inits), g, inits[0] if inits else g.node, "score dict initialised over all profile.candidates",
                   "zero-vote candidates stay listed", "score dictionary is no longer initialised over every candidate of the profile")
 
